@@ -167,3 +167,100 @@ func checkHostCall(t ev.TB, test string, p hostCallPayload) {
 func TestHostCallArgs(t *testing.T) {
 	rapid.Check(t, func(t *rapid.T) { checkHostCall(t, "TestHostCallArgs", genHostCall(t)) })
 }
+
+// ---------------------------------------------------------------------------
+// Host-defined indexable objects: "If nil is returned as value, it will be
+// converted to undefined by the runtime" (Object.IndexGet). A host type that
+// returns (nil, nil) for a missing field is therefore a correct host type, and
+// everything a script does with the result must see undefined.
+// ---------------------------------------------------------------------------
+
+type hostRecord struct {
+	tengo.ObjectImpl
+	fields map[string]tengo.Object
+}
+
+func (r *hostRecord) TypeName() string { return "host-record" }
+func (r *hostRecord) String() string   { return "<host-record>" }
+func (r *hostRecord) IndexGet(index tengo.Object) (tengo.Object, error) {
+	k, ok := tengo.ToString(index)
+	if !ok {
+		return nil, tengo.ErrInvalidIndexType
+	}
+	return r.fields[k], nil // nil for a missing field
+}
+
+type hostIndexPayload struct {
+	Uses []string `json:"uses"`
+}
+
+var hostIndexUses = []struct{ stmt, want string }{
+	{`R := h.missing`, `undefined`},
+	{`R := is_undefined(h.missing)`, `bool(true)`},
+	{`R := h.missing == undefined`, `bool(true)`},
+	{`R := h["nope"] != undefined`, `bool(false)`},
+	{`R := [h.missing, 1]`, `array[undefined, int(1)]`},
+	{`R := {k: h.missing}`, `map{"k": undefined}`},
+	{`R := h.missing ? 1 : 2`, `int(2)`},
+	{`R := !h.missing`, `bool(true)`},
+	{`R := h.missing || "d"`, `string("d")`},
+	{`R := type_name(h.missing)`, `string("undefined")`},
+	{`R := string(h.missing, "dflt")`, `string("dflt")`},
+	{`R := (func(x) { return is_undefined(x) })(h.missing)`, `bool(true)`},
+	{`R := h.missing.deeper`, `undefined`},
+	{`R := h.n + 1`, `int(6)`},
+	{`R := h.s`, `string("str")`},
+	{`R := copy([h.missing])`, `array[undefined]`},
+	{`R := immutable([h.missing])[0]`, `undefined`},
+}
+
+func checkHostIndexable(t ev.TB, test string, p hostIndexPayload) {
+	var sb strings.Builder
+	var wants []string
+	for i, u := range p.Uses {
+		for _, c := range hostIndexUses {
+			if c.stmt == u {
+				sb.WriteString(strings.ReplaceAll(u, "R", fmt.Sprintf("r%d", i)) + "\n")
+				wants = append(wants, c.want)
+			}
+		}
+	}
+	s := tengo.NewScript([]byte(sb.String()))
+	_ = s.Add("h", &hostRecord{fields: map[string]tengo.Object{"n": &tengo.Int{Value: 5}, "s": &tengo.String{Value: "str"}}})
+	var c *tengo.Compiled
+	var err error
+	pan := safely(func() { c, err = s.Run() })
+	if pan != nil {
+		ev.Fail(t, test, p, "the run panicked: %v\n%s", pan, sb.String())
+		return
+	}
+	if err != nil {
+		ev.Fail(t, test, p, "the run failed: %v\n%s", err, sb.String())
+		return
+	}
+	for i, w := range wants {
+		v := c.Get(fmt.Sprintf("r%d", i))
+		var got string
+		if pan := safely(func() { got = tv.Describe(v.Object()) }); pan != nil {
+			got = fmt.Sprintf("panic while describing: %v", pan)
+		}
+		if tv.HasNil(v.Object()) {
+			got = "a Go nil (where the runtime owes undefined) in " + got
+		}
+		if got != w {
+			ev.Fail(t, test, p, "statement %d (%s): result %s, expected %s\n--- script ---\n%s", i, p.Uses[i], got, w, sb.String())
+			return
+		}
+	}
+	ev.Case("hostindex|"+sb.String(), len(wants) >= 3, "hostcall:host-indexable-nil-field")
+}
+
+func TestHostIndexable(t *testing.T) {
+	rapid.Check(t, func(t *rapid.T) {
+		var p hostIndexPayload
+		for i := rapid.IntRange(1, 6).Draw(t, "uses"); i > 0; i-- {
+			p.Uses = append(p.Uses, hostIndexUses[rapid.IntRange(0, len(hostIndexUses)-1).Draw(t, "use")].stmt)
+		}
+		checkHostIndexable(t, "TestHostIndexable", p)
+	})
+}
